@@ -1513,10 +1513,19 @@ func (r *Raft) appendEntries(rpc RPC, a *AppendEntriesRequest) {
 	// Verify the last log entry
 	if a.PrevLogEntry > 0 {
 		lastIdx, lastTerm := r.getLastEntry()
+		lastSnapIdx, lastSnapTerm := r.getLastSnapshot()
 
 		var prevLogTerm uint64
 		if a.PrevLogEntry == lastIdx {
 			prevLogTerm = lastTerm
+		} else if a.PrevLogEntry == lastSnapIdx {
+			// The previous entry is the last one covered by our snapshot. It
+			// may no longer be in the log store while the log reaches past it.
+			prevLogTerm = lastSnapTerm
+		} else if a.PrevLogEntry < lastSnapIdx {
+			// Covered by our snapshot, hence committed and part of every
+			// leader's log: nothing to compare against any more.
+			prevLogTerm = a.PrevLogTerm
 		} else {
 			var prevLog Log
 			if err := r.logs.GetLog(a.PrevLogEntry, &prevLog); err != nil {
@@ -1545,8 +1554,13 @@ func (r *Raft) appendEntries(rpc RPC, a *AppendEntriesRequest) {
 
 		// Delete any conflicting entries, skip any duplicates
 		lastLogIdx, _ := r.getLastLog()
+		lastSnapIdx, _ := r.getLastSnapshot()
 		var newEntries []*Log
 		for i, entry := range a.Entries {
+			if entry.Index <= lastSnapIdx {
+				// Already covered by our snapshot
+				continue
+			}
 			if entry.Index > lastLogIdx {
 				newEntries = a.Entries[i:]
 				break
@@ -2003,6 +2017,9 @@ func (r *Raft) installSnapshot(rpc RPC, req *InstallSnapshotRequest) {
 	if mlogs, ok := r.logs.(MonotonicLogStore); ok && mlogs.IsMonotonic() {
 		if err := r.removeOldLogs(); err != nil {
 			r.logger.Error("failed to reset logs", "error", err)
+		} else {
+			// The log store is empty now, forget the cached tail
+			r.setLastLog(0, 0)
 		}
 	} else if err := r.compactLogs(req.LastLogIndex); err != nil {
 		r.logger.Error("failed to compact logs", "error", err)
